@@ -2130,6 +2130,14 @@ impl ToBitStream for SeekPoint {
 
     fn to_writer<W: BitWrite + ?Sized>(&self, w: &mut W) -> Result<(), Self::Error> {
         match self {
+            // this sample offset is what marks a placeholder point
+            Self::Defined {
+                sample_offset: u64::MAX,
+                ..
+            } => Err(std::io::Error::new(
+                std::io::ErrorKind::InvalidInput,
+                "seek point sample offset is reserved for placeholders",
+            )),
             Self::Defined {
                 sample_offset,
                 byte_offset,
